@@ -98,6 +98,21 @@ def check_pressure(desc, ctx):
         return cm.c_pressure(v, a[0], b[0], a[1], b[1], adsorbate=ads, temp=T)
 
     reps = ru.P_REPS
+    if int(round(T * 1e6)) % 3 == 0:
+        # earlier in the process: a user's private adsorbate of the SAME NAME (no backend, own vapour pressure) went
+        # through the same conversions at the same temperature; the factor is the saturation pressure of the adsorbate
+        # PASSED IN, whatever was converted before
+        import pygaps
+        priv = pygaps.Adsorbate(desc["adsorbate"], store=False, saturation_pressure=12345.6)
+        for a in reps:
+            if a[0] == "absolute":
+                got = float(cm.c_pressure(1.0, "relative", "absolute", None, a[1], adsorbate=priv, temp=T))
+                want = ru.conv_pressure(12345.6, ("absolute", "Pa"), a, fluid, T)
+                if not abs(got - want) <= ru.tol_for(("absolute", "Pa"), a) * abs(want):
+                    raise Violation(f"pressure relative->{a} with a private adsorbate {desc['adsorbate']!r} (saturation "
+                                    f"pressure 12345.6 Pa given by the user): 1.0 -> {got!r}, expected {want!r}",
+                                    tag="private_namesake")
+        ctx.label("after_private_namesake")
     direct = {}
     for a in reps:
         for b in reps:
